@@ -4,8 +4,9 @@ import core
 import scen_buffer
 import ppar
 import scen_fifo
+import scen_lane
 
-PROPS = ['Props/C08.lean', 'Props/C08Buffer.lean', 'Props/C08Async.lean']
+PROPS = ['Props/C08.lean', 'Props/C08Buffer.lean', 'Props/C08Async.lean', 'Props/Lane.lean', 'Legacy/LaneMultiWriter.lean']
 
 
 def keyfn(case, res, m):
@@ -21,12 +22,20 @@ def run(chk):
     core.e1_flow(chk, 'scen_buffer', 'buffer', {'C08'},
                  lambda rng: scen_buffer.gen_case(rng, chk.tier, rng.choice(['lookahead','lookahead','stop'])),
                  n, keyfn=keyfn)
+    # the hand-off queue itself: the real SingleLane, one writer + one reader, against Model/Lane.lean
+    core.e1_flow(chk, 'scen_lane', 'lane', {'C08'},
+                 lambda rng: scen_lane.gen_case(rng, chk.tier, rng.choice(['bound', 'bound', '', 'order'])),
+                 800 if chk.tier == 'quick' else 12000, keyfn=keyfn)
+    lane_two_writers(chk, 120 if chk.tier == 'quick' else 3000)
     ppar.sample(chk, 'C08', 10 if chk.tier == 'quick' else 200)
     async_workers(chk)
     chk.cov['rule'] = ('cases = random (kind in fifo_stream / Stream.parmap / Stream.buffer / AsyncBuffer / SyncIter, n, '
                        'capacity / concurrency / maxsize, flags, failure plan incl. StopRequested, stop position and mode '
                        '(close, del+gc), service durations, chooser, seed) run on the real code under the deterministic '
-                       'scheduler; non-trivial = n >= 2 elements and >= 1 context switch; distinct = distinct (case, event trace)')
+                       'scheduler; non-trivial = n >= 2 elements and >= 1 context switch; distinct = distinct (case, event trace); '
+                       'plus (scen_lane) random (maxsize 0..3, call sequences of one writer and one reader thread, each call '
+                       'blocking / non-blocking / timed, think-time gaps, Condition flavour, chooser with early timer expiry, seed) '
+                       'run on the real SingleLane; non-trivial = >= 2 calls and >= 1 context switch')
     chk.trusted += TRUSTED
     chk.assumptions += ASSUMPTIONS
 
@@ -63,11 +72,32 @@ def async_workers(chk):
     d['AsyncStream.parmap(sync worker, threads) cases'] = sum(1 for c, _r in res1 if c['kind'] == 'apmap_thread')
 
 
+def lane_two_writers(chk, n):
+    """Record only (outside the property: C08 speaks of the single-writer hand-off queue): two writer threads on one
+    SingleLane, as mpservice.socket.SocketClient uses it.  How often the deque exceeds maxsize is written to the
+    evidence; the traces are validated against the same model with nw = 2 (Legacy/LaneMultiWriter.lean has the
+    kernel-checked witness), a disagreement there is a note, not a verdict."""
+    cases = [scen_lane.gen_case_multi(chk.rng, chk.tier) for _ in range(n)]
+    results = chk.run_cases('scen_lane', cases)
+    nb0 = len(chk.corr_breaks)
+    nv0 = chk.cov['traces_validated_against_impl']
+    nval, ntot = chk.validate('lane', scen_lane, results)
+    chk.cov['traces_validated_against_impl'] = nv0          # not traces of the property's system
+    breaks = chk.corr_breaks[nb0:]
+    del chk.corr_breaks[nb0:]
+    over = sum(1 for _c, r in results if r.get('overshoot', 0) > 0)
+    chk.cov['distribution']['lane_two_writers'] = dict(cases=n, deque_exceeded_maxsize=over,
+                                                       traces_matching_model_nw2=nval, of=ntot)
+    chk.notes.append(f'two writers on one SingleLane (outside C08, recorded only): deque longer than maxsize in {over}/{n} cases; '
+                     f'{nval}/{ntot} traces match Model/Lane.lean with nw=2' + (f'; first mismatch: {breaks[0]["verdict"][:200]}' if breaks else ''))
+
+
 TRUSTED = [
+    "SingleLane (mpservice/_queues.py) is no longer assumed: lean/MpsVerif/Model/Lane.lean models it at the granularity of its lock operations, Props/Lane.lean proves FIFO / bound / no underflow / no lost wake-up / outcome table and the refinement to the atomic bounded FIFO that Model/Fifo.lean and Model/Buffer.lean use (single writer + single reader, all maxsize, all interleavings), tied to /repo by trace validation (drv lane) of the real SingleLane over the interpreter's own threading.Condition source on every run. What remains assumed there: threading.Lock is mutually exclusive; Condition.wait atomically queues the waiter and releases the mutex and re-acquires it before returning; notify() wakes at most one waiter that is in the list at that moment and is not remembered otherwise; no spurious wake-ups (CPython's Condition blocks on a private lock that only notify() releases)",
     'Lean 4.33.0 kernel; axioms per theorem as listed in coverage.obligation_list (subset of propext, Classical.choice, Quot.sound)',
     'hand-written models lean/MpsVerif/Model/Fifo.lean and Model/Buffer.lean, tied to /repo by trace validation (drv fifo / drv buffer, Core.Val.validate_sound) on every run',
     'deterministic scheduler harness/detsched.py (replaces threading primitives, SimpleQueue, clock) and harness/cooploop.py (asyncio selector wait as a cooperative wait)',
-    'modelled not verified: SingleLane / queue.Queue are FIFO with maxsize slots; ThreadPoolExecutor runs <= max_workers calls, cancel() succeeds only before pick-up; Future.result() returns the call\'s own outcome; Thread.is_alive()/join()',
+    'modelled not verified: the stdlib queue.Queue(2) of SyncIter is FIFO with maxsize slots; ThreadPoolExecutor runs <= max_workers calls, cancel() succeeds only before pick-up; Future.result() returns the call\'s own outcome; Thread.is_alive()/join()',
     'SyncIter is validated against the Buffer model with maxsize 2 (its worker drains the queue itself instead of queueing an end mark after a stop; indistinguishable at the observed events)',
     "executor='process': not driven by the scheduler; sampled on real pool processes under the OS schedule (harness/ppar.py, monitors only), otherwise covered by the theorem (the Fifo model does not depend on the kind of executor)",
     'the timed-out poll of the repaired drain loop is a stutter step; liveness assumes the worker thread keeps being scheduled (fairness)',
@@ -89,8 +119,9 @@ def replay(chk, data):
             return 1
         return 0
     kind = data['case']['kind']
-    scen = 'scen_buffer' if kind in ('buffer', 'asyncbuffer', 'synciter') else \
-        'scen_afifo' if kind in ('apmap', 'afifo') else 'scen_asrv' if kind in ('pmap_async', 'apmap_thread') else 'scen_fifo'
+    scen = 'scen_buffer' if kind in ('buffer', 'asyncbuffer', 'synciter') or '+' in kind else \
+        'scen_afifo' if kind in ('apmap', 'afifo') else 'scen_asrv' if kind in ('pmap_async', 'apmap_thread') else \
+        'scen_lane' if kind in ('lane', 'multi') else 'scen_fifo'
     res = chk.run_cases(scen, [data['case']], sched=(scen != 'scen_afifo'))
     case, r = res[0]
     hits = [m for m in r['monitors'] if m['prop'] == chk.prop]
